@@ -3,6 +3,7 @@ package refint
 import (
 	"fmt"
 	"math"
+	"sort"
 	"strconv"
 	"strings"
 )
@@ -1318,6 +1319,118 @@ func installBuiltins(in *Interp, p *Package) {
 		}
 		out := append(append(append([]*V{}, a[1].C[:lo]...), a[3]), a[1].C[lo:]...)
 		return seqOf(in, ts, out)
+	})
+
+
+
+	B("load-string", 1, 3, func(in *Interp, env *Env, a []*V) (*V, *Err) {
+		if a[0].T != TStr {
+			return nil, in.errf("first argument is not a string")
+		}
+		forms, ok := in.Sources[a[0].S]
+		if !ok {
+			in.Unsupported = "load-string of a text the generator did not register"
+			return Nil(), nil
+		}
+		// evaluated in the root environment; the current package is restored
+		// for the caller afterwards
+		saved := in.Cur
+		defer func() { in.Cur = saved }()
+		var ret *V = Nil()
+		for _, f := range forms {
+			v, e := in.Eval(in.Root, f)
+			if e != nil {
+				return nil, e
+			}
+			ret = v
+		}
+		return ret, nil
+	})
+
+	// ---- packages ----
+	nameArg := func(in *Interp, v *V) (string, *Err) {
+		if v.T != TSym && v.T != TStr {
+			return "", in.errf("argument is not a symbol or a string")
+		}
+		return v.S, nil
+	}
+	B("in-package", 1, -1, func(in *Interp, env *Env, a []*V) (*V, *Err) {
+		name, e := nameArg(in, a[0])
+		if e != nil {
+			return nil, e
+		}
+		p := in.Pkgs[name]
+		if p == nil {
+			p = &Package{Name: name, Syms: map[string]*V{}}
+			in.Pkgs[name] = p
+			in.Cur = p
+			in.usePackage(in.Pkgs[LangPkg])
+		}
+		in.Cur = p
+		for _, d := range a[1:] {
+			if d.T != TStr {
+				return nil, in.errf("docstring argument is not a string")
+			}
+		}
+		return Nil(), nil
+	})
+	B("use-package", 0, -1, func(in *Interp, env *Env, a []*V) (*V, *Err) {
+		for _, x := range a {
+			name, e := nameArg(in, x)
+			if e != nil {
+				return nil, e
+			}
+			p := in.Pkgs[name]
+			if p == nil {
+				return nil, in.errf("unknown package")
+			}
+			// copies the exported bindings as they are now, in export order
+			for _, ex := range p.Exports {
+				v, ok := p.Syms[ex]
+				if !ok {
+					if ex == "true" || ex == "false" {
+						continue
+					}
+					return nil, in.errf("package %s: unbound symbol %s", name, ex)
+				}
+				if ex == "true" || ex == "false" {
+					continue
+				}
+				in.Cur.Syms[ex] = v
+			}
+		}
+		return Nil(), nil
+	})
+	var export func(in *Interp, a []*V) *Err
+	export = func(in *Interp, a []*V) *Err {
+		for _, x := range a {
+			switch x.T {
+			case TSym, TStr:
+				found := false
+				for _, e := range in.Cur.Exports {
+					if e == x.S {
+						found = true
+					}
+				}
+				if !found {
+					in.Cur.Exports = append(in.Cur.Exports, x.S)
+					sort.Strings(in.Cur.Exports)
+				}
+			case TList:
+				if e := export(in, x.C); e != nil {
+					return e
+				}
+			default:
+				return in.errf("argument is not a symbol, a string, or a list of valid types")
+			}
+		}
+		return nil
+	}
+	B("export", 0, -1, func(in *Interp, env *Env, a []*V) (*V, *Err) {
+		if e := export(in, a); e != nil {
+			return nil, e
+		}
+		return Nil(), nil
 	})
 
 	// ---- conditions ----
